@@ -168,7 +168,9 @@ CLAIMED = {
          "(lossless re-emission). Code level: TLC evaluates the token relations of Level 1 (Req!C02: fn prefix, opaque-body spacing, "
          "module prefix up to the matching closing brace, impl block kept beside) on the real input/output token streams recorded by "
          "the hook for every enumerated body, for seeded random fns/mods/impl blocks with rich attributes, qualifiers and token soups, "
-         "and for every invocation of the repository's own test-suite.",
+         "and for every invocation of the repository's own test-suite. In addition TLC checks the end-to-end pipeline model (Expand.tla: attribute "
+         "front end -> dependency analysis -> trait / impl generation for all four input modes) against nine structural invariants, and validates "
+         "the shape of every recorded expansion of this check against that model (Trace_Expand; differences are reported as drift).",
          "token identity is kind+text (spacing hint only inside opaque fn bodies); spans/hygiene unobservable; random part seeded by VERIF_SEED",
          "TLC trace validation of recorded (input, output) token streams against Level-1 token relations + TLC model checking of the item splitter's losslessness",
          "7/C02"),
